@@ -7,7 +7,7 @@ import json
 
 from simbox import gen as G
 from simbox import world as W
-from simbox.codetf_check import check_report
+from simbox.codetf_check import STRUCTURAL, check_report
 from simbox.framework import Check
 from simbox.normalize import results_by_codemod
 from simbox.util import dec, enc
@@ -246,7 +246,7 @@ class C10(Check):
         # "writes a valid report": schema + consistency with the run; content invariants that have nothing to do with the
         # fault (a codemod's own line numbering) are C15's business and are reported there
         probs = [p for p in check_report(flt, info["world_fault_files"])
-                 if not (p[0] == "changeset-path-missing" and p[1].get("path") in vanished) and p[0] != "line-number-outside-file"]
+                 if not (p[0] == "changeset-path-missing" and p[1].get("path") in vanished) and p[0] in STRUCTURAL]
         if probs:
             add("invalid-report", probs[0][0], {"problems": probs[:3]})
         rr = results_by_codemod(ref["report"])
